@@ -27,6 +27,34 @@ def base_files(d):
     return files + lw, len(lw)
 
 
+def narrow_leaks(sh, exe, lst, stride, env):
+    """a window in which LeakSanitizer found unreachable blocks -> the first session that leaks on its own, keyed by allocation stack"""
+    import re
+    out = []
+    for key, text, case in sh.viols:
+        m = re.match(r'window (\d+) (\d+) ', text)
+        if not key.startswith('memory-leaked') or not m:
+            out.append((key, text, case))
+            continue
+        found = None
+        e = dict(env, VERIF_LEAK_WINDOW='1')
+        for c in range(int(m.group(1)), int(m.group(2))):
+            try:
+                p = subprocess.run([exe, 'c10', str(common.seed()), str(c), str(c + 1), lst, str(stride)], stdout=subprocess.PIPE, stderr=subprocess.PIPE,
+                                   env=e, timeout=300)
+            except subprocess.TimeoutExpired:
+                continue
+            o, err = p.stdout.decode(errors='replace'), p.stderr.decode(errors='replace')
+            if '@viol memory-leaked' in o:
+                ctx = [ln for ln in err.splitlines() if ln.startswith('@note ')]
+                k = common.sanitizer_key(err) or 'lsan:leak'
+                i = err.find('ERROR: LeakSanitizer')
+                found = (k, 'case %d leaks on its own (one session per process): %s' % (c, err[i:i + 2000]), str(c))
+                break
+        out.append(found or (key, text + ' (no single session of the window leaked on its own)', case))
+    sh.viols = out
+
+
 def run(tier, replay=None):
     res = common.Result('C10', tier, 'fault_enumeration')
     d = common.scratch_dir()
@@ -34,7 +62,7 @@ def run(tier, replay=None):
     lst = os.path.join(d, 'c10.list')
     open(lst, 'w').write('\n'.join(files) + '\n')
     exe = common.hbuild('h_file', ['h_file.cpp'], 'asan', need_reflect=True)
-    env = common.san_env(dict(VERIF_TMP=d))
+    env = common.san_env(dict(VERIF_TMP=d), leaks=True)
     out = subprocess.check_output([exe, 'c10count', str(common.seed()), '0', '0', lst, '1'], env=env, timeout=600).split()
     space, targeted = int(out[1]), int(out[2])
     target = 200000 if tier == 'quick' else space
@@ -42,6 +70,7 @@ def run(tier, replay=None):
     ncases = int(subprocess.check_output([exe, 'c10count', str(common.seed()), '0', '0', lst, str(stride)], env=env, timeout=600).split()[0])
     sh = common.Sharded(exe, lambda a, b: ['c10', common.seed(), a, b, lst, stride], ncases, env=env, tag='c10', timeout=1500,
                         max_restarts=200).run()
+    narrow_leaks(sh, exe, lst, stride, env)
     common.absorb(res, sh)
     st = common.merge_stats(sh.stats)
     res.evaluations = st.get('sessions', 0)
@@ -55,11 +84,12 @@ def run(tier, replay=None):
                 'bulk byte/field/truncation sub-spaces are sampled with stride %d (phase from VERIF_SEED), the targeted ones (blocks, size fields, '
                 'header combinations, container fields) always run completely; '
                 'oracle: open returns or throws the library\'s exception, read loop ends within 64*filesize+4096 objects, close returns, no '
-                'ASan/UBSan/libstdc++-assertion report, no other exception, 256 MiB allocation cap surfaces as end of input; every mutant is '
+                'ASan/UBSan/libstdc++-assertion report, no other exception, 256 MiB allocation cap surfaces as end of input, LeakSanitizer finds no '
+                'unreachable block after any window of 64 sessions (a hit is narrowed to one session per process); every mutant is '
                 'distinct by construction' % (nlib, space, stride))
     res.samples = st.get('samples', [])[:6]
     res.extra = dict(seed_files=len(files), mutation_space=space, targeted_mutants_always_run=targeted, stride=stride, opened=st.get('opened', 0), open_threw=st.get('open_threw', 0),
-                     objects_delivered=st.get('objects_delivered', 0), alloc_cap_hits=st.get('alloc_cap_hits', 0), kinds=st.get('kinds', {}))
+                     objects_delivered=st.get('objects_delivered', 0), alloc_cap_hits=st.get('alloc_cap_hits', 0), leak_checks=st.get('leak_checks', 0), kinds=st.get('kinds', {}))
     res.assumptions = ['ASan red zones miss intra-object and far out-of-bounds accesses; _GLIBCXX_ASSERTIONS and vector annotations narrow the gap']
     if tier == 'thorough' or os.environ.get('VERIF_FUZZ'):
         fuzz_leg(res, d, files, int(os.environ.get('VERIF_FUZZ_RUNS', '0')) or None)
@@ -95,7 +125,7 @@ def fuzz_leg(res, d, files, runs=None):
         def one(i, exe=exe, seeds=seeds, name=name, per=per):
             out = os.path.join(d, '%s.out%d' % (name, i))
             os.makedirs(out, exist_ok=True)
-            env = common.san_env(dict(VERIF_TMP=d))
+            env = common.san_env(dict(VERIF_TMP=d), leaks=True)      # libFuzzer runs LeakSanitizer after an execution whose malloc/free counts differ
             env['ASAN_OPTIONS'] += ':quarantine_size_mb=8:alloc_dealloc_mismatch=0'   # the target replaces operator new (allocation cap); libFuzzer's own units mix both
             # ASan keeps a record of every thread ever created and the file-level target starts two per execution: the process is
             # restarted every 40 000 executions (the corpus directory carries over) so that the sanitizer's own bookkeeping stays small
@@ -126,7 +156,7 @@ def fuzz_leg(res, d, files, runs=None):
                         key = 'fuzz-oracle:' + re.search(r'VERIF-ORACLE: ([a-z ]+)', err).group(1).strip().replace(' ', '-')
                     elif 'ERROR: libFuzzer: timeout' in err:
                         key = 'hang:libfuzzer-timeout'
-                    arts = [os.path.join(out, a) for a in os.listdir(out) if a.startswith(('crash-', 'timeout-', 'oom-'))]
+                    arts = [os.path.join(out, a) for a in os.listdir(out) if a.startswith(('crash-', 'timeout-', 'oom-', 'leak-'))]
                     keep = None
                     if arts:
                         keep = os.path.join(res.replay_dir, name + '-' + os.path.basename(arts[0]))
